@@ -861,6 +861,13 @@ func (fc *FnCtx) evalCall(e *Expr, env *Env) Val {
 	case "wrap8", "wrap16", "wrap32", "wrap64":
 		bits := map[string]uint{"wrap8": 8, "wrap16": 16, "wrap32": 32, "wrap64": 64}[e.Name]
 		return mathInt(intKind{bits, false}.wrap(args()[0].T))
+	case "handed":
+		// handed(p): the object p points to was sent on a channel by this function (it belongs to the receiver now)
+		h, ok := env.ghost["handedobj"]
+		if !ok {
+			panic(bindError{"handed() needs opt lockcheck"})
+		}
+		return boolVal(sel(h, args()[0].T))
 	case "held":
 		return boolVal(sel(env.ghost["held"], fc.mutexOf(args()[0])))
 	case "heldonly":
@@ -1379,6 +1386,11 @@ func (fc *FnCtx) sourceOrdinal(a Anchor, kind string, instr ssa.Instruction) int
 					continue
 				}
 				pat = fc.srcText(x.Pos())
+			case *ssa.Next:
+				if kind != "next" {
+					continue
+				}
+				pat = fc.nextText(x)
 			case *ssa.UnOp:
 				if kind != "recv" || x.Op != token.ARROW {
 					continue
